@@ -143,7 +143,10 @@ class Ctx(object):
 
     # -- logging (never draws randomness, never reads a clock) --
     def ev(self, *items):
-        self.events.append(items)
+        # arrays are digested NOW: a returned block may be a view on a mapping that is closed (or
+        # a buffer that is reused) before the log is hashed at the end of the run
+        self.events.append(tuple({'__nd__': adigest(x)} if isinstance(x, np.ndarray) else x
+                                 for x in items))
 
     def op(self, name, changes_state=True):
         self.ops += 1
